@@ -34,9 +34,13 @@ def fsc_landscape(
                 sigma0 = backend.sqrt(
                     backend.sum_labels(pw0, labels=labels, index=index)
                 )
-                fsc = backend.sum_labels(cov, labels=labels, index=index) / (
-                    sigma0 * sigma1
-                )
+                num = backend.sum_labels(cov, labels=labels, index=index)
+                denom = sigma0 * sigma1
+                # shells without power (e.g. a constant sub-volume) carry no
+                # correlation; dividing 0 by 0 there would turn the score into NaN
+                has_power = denom > 0
+                fsc = backend.zeros(denom.shape, dtype=denom.dtype)
+                fsc[has_power] = num[has_power] / denom[has_power]
                 out[iz, iy, ix] = float(fsc.mean())
     return out
 
